@@ -319,4 +319,11 @@ func init() {
 		}
 		return p
 	}
+
+	planTable["C27"] = enumPlan("exploration",
+		"All operation sequences of length <= 3 (quick) / 4 (thorough) over {Set, Delete} x {x,y} for NewWriteBatch (normal DB) and NewWriteBatchAt(6), and over {SetEntryAt, DeleteAt} x {x,y} x {ts 5,7} for NewManagedWriteBatch, with the batch's transaction limit set so that it splits after every 1, 2 or 3 entries (and not at all); after Flush every key is read (managed: at every timestamp 4..8) and must show the LAST call for that key (and version).",
+		"Runs on an in-memory DB; the split is forced through the same count limit that production uses (maxBatchCount).",
+		"nested enumeration; distinct = distinct (mode, split, operation sequence)",
+		[]Stage{en("c27batch", 16, 60, prm("len", 3))},
+		[]Stage{en("c27batch", 16, 900, prm("len", 4))})
 }
